@@ -66,6 +66,29 @@ def handle (op : String) (j : Json) : Except String Json := do
       | none => errEnc
     let s := intList (rows.map (fun r => if isMissing r then miss else (specParse r).getD 0))
     pure (reply m (some s))
+  | "join" =>
+    let strs := (← getStrList j "strs").map toB
+    let sep := (toB (← getStr j "sep")).headD 44
+    let keep ← getBool j "keep_last"
+    let sp := if keep then (strs.map (· ++ [sep])).flatten else List.intercalate [sep] strs
+    pure (reply (Json.str (ofB (join strs sep keep))) (some (Json.str (ofB sp))))
+  | "split" =>
+    let t := toB (← getStr j "text")
+    let seps := (← getStrList j "seps").map (fun x => (toB x).headD 44)
+    pure (reply (strList (splitBy (fun b => seps.contains b) t)) none)
+  | "boollists" =>
+    let rows ← getNatListList j "rows"
+    let m := match digitListsToStrings rows with
+      | some l => strList l
+      | none => Json.mkObj [("err", str "other")]
+    pure (reply m (some (strList (rows.map (fun r => r.map (fun d => 48 + d))))))
+  | "fparse_missing" =>
+    let rows := (← getStrList j "rows").map toB
+    let one (f : Bytes → Option Dec) (r : Bytes) : Json :=
+      if isMissing r then Json.str "missing" else match f r with
+        | some d => decJ d
+        | none => Json.null
+    pure (reply (Json.arr (rows.map (one strToFloatRow)).toArray) (some (Json.arr (rows.map (one specFloat)).toArray)))
   | "fparse" =>
     let rows := (← getStrList j "rows").map toB
     pure (reply (optDecList (rows.map strToFloatRow)) (some (optDecList (rows.map specFloat))))
